@@ -412,10 +412,35 @@ static double gen_float() {
   }
 }
 
+// Integers around a change of the digit count: +-(radix^k + d). The decimal text of an int64 has 1..19 digits and the
+// hexadecimal one 1..16; code that sizes, pads or splits the text by digit count (a logarithm, a table, a shift) is
+// exact everywhere except within some distance of radix^k, and that distance grows with k when floating point is
+// involved (doubles are 2^(k-53) apart near 2^k). d: 0, a few units, tens, up to +-5000.
+static int64_t pow_int(unsigned radix, unsigned k) {
+  int64_t p = 1;
+  for (unsigned j = 0; j < k; j++) p *= radix;
+  return p;
+}
+static int64_t gen_digit_boundary_int() {
+  bool dec = vg::chance(2, 3);
+  int64_t base = dec ? pow_int(10, 1 + vg::below(18)) : pow_int(16, 1 + vg::below(15));
+  int64_t d;
+  switch (vg::below(4)) {
+    case 0: d = vg::range(-3, 3); break;
+    case 1: d = vg::range(-70, 70); break;
+    case 2: d = vg::range(-600, 600); break;
+    default: d = vg::range(-5000, 5000); break;
+  }
+  int64_t v = base + d; // |base| <= 10^18 < 2^63 - 5000: no overflow
+  ctx().cls(dec ? "gen:int-near-power-of-10" : "gen:int-near-power-of-16");
+  return vg::coin() ? v : -v;
+}
+
 static int64_t gen_int() {
-  switch (vg::below(5)) {
+  switch (vg::below(6)) {
     case 0: return vg::pick<int64_t>({INT64_MIN, INT64_MAX, 0, 1, -1, INT64_MIN + 1, INT64_MAX - 1, 10, -10, 255, -255, 256, -256});
     case 1: return vg::range(-1000, 1000);
+    case 2: return gen_digit_boundary_int();
     default: return static_cast<int64_t>(vg::interesting64());
   }
 }
@@ -1136,6 +1161,33 @@ static void enum_fixed(Enum& e) {
       vals.push_back(d);
     }
   }
+  // integers around every change of the digit count, both radices, both signs: +-(10^k + d), k = 1..18, and
+  // +-(16^k + d), k = 1..15, for every |d| <= dmax, plus the neighbourhood of INT64_MIN / INT64_MAX; lists of <= 129 integers
+  const int64_t dmax = ctx().thorough() ? 5000 : 64;
+  {
+    auto push_run = [&](int64_t base, bool negate) {
+      Node l = Node::list();
+      for (int64_t d = -dmax; d <= dmax; d++) {
+        int64_t v = base + d;
+        l.items.push_back(Node::integer(negate ? -v : v));
+        if (l.items.size() == 129 || d == dmax) {
+          vals.push_back(l);
+          l = Node::list();
+        }
+      }
+    };
+    for (unsigned k = 1; k <= 18; k++)
+      for (int neg = 0; neg < 2; neg++) push_run(pow_int(10, k), neg);
+    for (unsigned k = 1; k <= 15; k++)
+      for (int neg = 0; neg < 2; neg++) push_run(pow_int(16, k), neg);
+    Node hi = Node::list(), lo = Node::list();
+    for (int64_t d = 0; d <= 128; d++) {
+      hi.items.push_back(Node::integer(INT64_MAX - d));
+      lo.items.push_back(Node::integer(INT64_MIN + d));
+    }
+    vals.push_back(hi);
+    vals.push_back(lo);
+  }
   uint64_t idx = 0;
   for (const auto& v : vals) {
     if (e.stop) break;
@@ -1150,7 +1202,7 @@ static void enum_fixed(Enum& e) {
     enc(l, c2);
     e.exec(c2);
   }
-  e.complete(cat("fixed value list (boundary floats and ints, every byte value as string and key, ", tokens().size(), " well-known multi-byte sequences alone / at the start / end / middle of a text and all ordered pairs of them as string and key, empty containers), bare and inside a list, x 64 option masks"));
+  e.complete(cat("fixed value list (boundary floats and ints, every integer +-(10^k + d), k = 1..18, and +-(16^k + d), k = 1..15, |d| <= ", dmax, ", INT64_MAX - d and INT64_MIN + d for d <= 128, every byte value as string and key, ", tokens().size(), " well-known multi-byte sequences alone / at the start / end / middle of a text and all ordered pairs of them as string and key, empty containers), bare and inside a list, x 64 option masks"));
 }
 
 int main(int argc, char** argv) {
